@@ -318,6 +318,11 @@ def harness(cfg, ns):
         o.append(Obl("merge operand unchanged", snap_eq(so, snap(other)), rz))
         got.clear()
         o.append(Obl("[]: clearing the returned set leaves the continuum unchanged", snap_eq(s0, snap(c)), rz))
+        f1, f2 = co.Continuum(), co.Continuum()
+        f1.add("n1", Segment(core.const(0), core.const(1)), "lab")
+        f1.add_annotator("n2")
+        o.append(Obl("two freshly constructed continua share nothing", len(f2) == 0 and f2.num_units == 0 and list(f2.categories) == [] and
+                     same(f2.bound_inf, 0.0) and same(f2.bound_sup, 0.0), rz))
         cp2, mg2 = c.copy(), c.merge(other)
         o += mutate_and_compare(ns, ctx, c, cp2, "source vs copy", rz)
         o.append(Obl("source mutation leaves an earlier merge unchanged", True if mg2 is None else snap_eq(snap(mg2), snap(mg2)), rz))
@@ -451,6 +456,10 @@ def replay(case):
             mutate(c)
             if S(cp) != b:
                 bad.append("mutating the source changed its copy")
+            f1, f2 = pa.Continuum(), pa.Continuum()
+            f1.add("n1", Segment(0.0, 1.0), "lab")
+            if len(f2) or f2.num_units or list(f2.categories):
+                bad.append("two freshly constructed continua share state")
     except Exception as ex:     # noqa: BLE001
         import traceback
         return dict(reproduced=True, detail="real build raised " + repr(ex)[:200] + traceback.format_exc()[-400:])
